@@ -89,6 +89,7 @@ func c10Specs() []gram.Named {
 	quoted.Rules[3].Action = "\n\t$$ = $1 // }\n"
 	quoted.Rules[4].Action = " s := \"\\\"}{\"; _ = s; $$ = $1 "
 	quoted.Rules[5].Action = " s := `}`; _ = s; r := '\\''; _ = r; $$ = 0 "
+	quoted.Rules[2].Action = " s := strings.TrimSuffix(\"a\\\\\", \"\\\\\") + \"{\"; _ = s; $$ = 0 /* } */ "
 	quoted.Epilogue = "\n// tail\n"
 	quoted.HasEpilogue = true
 	out = append(out, gram.Named{Name: "braces-in-quoted-text", Spec: quoted})
@@ -131,6 +132,12 @@ func c10Specs() []gram.Named {
 	pnum.Tokens = []gram.TokDecl{{Name: "TN"}, {Name: "TM", NoTokenLine: true}, {Name: "TP", NoTokenLine: true}, {Name: "TQ", NoTokenLine: true}}
 	pnum.Prec = []gram.PrecLevel{{Assoc: "left", Toks: []string{"TM", "TP"}, Nums: []int{301, 0}}, {Assoc: "right", Toks: []string{"TQ"}, Nums: []int{400}}}
 	out = append(out, gram.Named{Name: "numbers-on-precedence-lines", Spec: pnum})
+
+	// aliases written on precedence lines, with and without a number before them: the rest of the line counts
+	pal := gram.Parse("E", nil, "E: E TM E | E TP E | E TQ E | E TR E | TN")
+	pal.Tokens = []gram.TokDecl{{Name: "TN"}, {Name: "TM"}, {Name: "TP", NoTokenLine: true}, {Name: "TQ", NoTokenLine: true}, {Name: "TR"}}
+	pal.Prec = []gram.PrecLevel{{Assoc: "left", Toks: []string{"TM", "TP"}, Nums: []int{0, 301}, Aliases: []string{"-", "+"}}, {Assoc: "right", Toks: []string{"TQ", "TR"}, Aliases: []string{"?", ""}}}
+	out = append(out, gram.Named{Name: "aliases-on-precedence-lines", Spec: pal})
 
 	// value tags given on precedence lines: to a token declared before (untagged), to a new name, to a literal
 	ptag := gram.Parse("E", nil, "E: E TP E | E TQ E | E '-' E | TN")
